@@ -630,6 +630,9 @@ func callSSA(i *interpreter, caller *frame, callpos token.Pos, fn *ssa.Function,
 			panic(pathEnd{status: stUnsupported, detail: "no code for function: " + fn.String()})
 		}
 	}
+	if fn.Pkg != nil && i.ex != nil && unsupportedPkgs[fn.Pkg.Pkg.Path()] {
+		panic(pathEnd{status: stUnsupported, detail: "reflection-driven library code is not executed symbolically: " + fn.String()})
+	}
 	if fn.Pkg != nil && !i.initDone[fn.Pkg] && i.ex != nil {
 		// calling into a package whose initialiser was skipped: its globals are zero
 		if !i.initAllowed(fn.Pkg) {
@@ -669,6 +672,9 @@ func callSSA(i *interpreter, caller *frame, callpos token.Pos, fn *ssa.Function,
 	i.curFrame = prev
 	return fr.result
 }
+
+// library packages driven by reflection, which the interpreter does not model
+var unsupportedPkgs = map[string]bool{"text/template": true, "html/template": true, "encoding/json": true, "encoding/xml": true, "encoding/gob": true}
 
 // packages that are interpreted although their initialiser is not run
 var deniedUninit = map[string]bool{}
